@@ -2,7 +2,8 @@
 (***************************************************************************)
 (* Trace specification for C02 over runs of the real core recorded by the  *)
 (* whole-core simulation (harness/cmd/coresim). Lines used:                 *)
-(*   Reset{scn, model:{tasks:[{id,class,crit,outcome}], event, call, op}}   *)
+(*   Reset{scn, model:{tasks:[{id,class,crit,outcome,dead}], event, call,   *)
+(*         op}}                                                             *)
 (*   Api{call, op} / ApiReply{call, op, code, st, timeout}                  *)
 (*   MMessage{event, class, outcome}   (a command reached a task)           *)
 (*   Snapshot{envs:[{env,st}]}          End                                 *)
@@ -26,7 +27,9 @@ CTasks == {case.tasks[i].id : i \in 1..Len(case.tasks)}
 CRec(t) == CHOOSE r \in {case.tasks[i] : i \in 1..Len(case.tasks)} : r.id = t
 CCrit == [t \in CTasks |-> CRec(t).crit]
 COut == [t \in CTasks |-> CRec(t).outcome]
-CClasses == {case.tasks[i].class : i \in 1..Len(case.tasks)}
+\* tasks that were no longer active when the request under test arrived (non-critical tasks that had died): not targets
+CLive == {t \in CTasks : ~CRec(t).dead}
+CClasses == {case.tasks[i].class : i \in {j \in 1..Len(case.tasks) : ~case.tasks[j].dead}}
 CAllCritOk == \A t \in CTasks : CCrit[t] => COut[t] = "ok"
 IsTestCall == Line.call = case.call /\ (case.call = "create" \/ Line.op = case.op)
 
@@ -51,7 +54,7 @@ TReply ==
        THEN LET \* (a create that gets past DEPLOY goes on to CONFIGURE: its reply reports CONFIGURED)
                 dstObs == IF case.event = "DEPLOY" THEN "CONFIGURED" ELSE Dst(case.event)
                 obs == IF Line.timeout THEN "hung" ELSE IF Line.st = dstObs THEN "ok" ELSE "fail"
-                pred == Verdict(CTasks, CCrit, case.event, COut)
+                pred == Verdict(CLive, CCrit, case.event, COut)
             IN /\ verdictObs' = obs
                /\ phase' = "post"
                /\ (IF obs = pred THEN TRUE ELSE PrintT(<<"DRIFT", scn, l, <<obs, pred>>>>))
@@ -60,7 +63,7 @@ TReply ==
                     + Soft("FailureIsError",
                            ~CAllCritOk => (IF case.call = "create" THEN Line.code # "OK" ELSE Line.st = "ERROR"),
                            <<Line.code, Line.st>>)
-                    + Soft("NothingToCommand", CTasks = {} => obs = "ok", obs)
+                    + Soft("NothingToCommand", CLive = {} => obs = "ok", obs)
                     \* DEPLOY: success or failure is known "in time" (the client's deadline is several deploy timeouts)
                     + Soft("DeployInTime", case.event = "DEPLOY" => ~Line.timeout, obs)
                     + Soft("OnlyPresentCommanded", cmded \subseteq CClasses, cmded)
